@@ -24,3 +24,8 @@ def run(repo, res, tier):
     _hk.rule_reindex(repo, res)
     _hk.rule_v5(repo, res)
     multidict.rule_none_sentinel(repo, res)
+    # copying is one of the operations of a history: a copy that shares its item list with the original makes the views of
+    # both disagree after the next mutation
+    multidict.rule_p1(repo, res)
+    multidict.rule_p2(repo, res)
+    multidict.rule_p10(repo, res)
